@@ -495,4 +495,32 @@ theorem idOK_processHeader_clean (r : Repo) (h : Hdr) (ok : Bool) (hf : ForestOK
     · rw [he]
       exact idOK_cleanWith _ hfm him (hc hne) _ (by decide)
 
+/-! ### exact lookups -/
+
+/-- `Branches.Find` of a held header answers with the branch that holds it and its true height. -/
+theorem branchesFind_held (r : Repo) (hf : ForestOK r) (hi : IdOK r) (bi : Nat) (hbi : bi ∈ r.branches) (i : Nat) (d : HData)
+    (hd : (r.br bi).headers[i]? = some d) :
+    r.branchesFind d.hdr.id = some (bi, (r.br bi).parentHeight + (r.br bi).offset + (i : Int)) := by
+  cases hfind : r.branchesFind d.hdr.id with
+  | none => exact absurd hfind (held_found r hf hi bi hbi i d hd)
+  | some x =>
+    obtain ⟨bj, h⟩ := x
+    obtain ⟨hbj, e, he, heid⟩ := found_holder r hf d.hdr.id bj h hfind
+    obtain ⟨h0, h1⟩ := getI_some_range _ _ _ he
+    have he' : (r.br bj).headers[(h - (r.br bj).parentHeight - (r.br bj).offset).toNat]? = some e := by
+      unfold getI at he
+      have : ¬ (h - (r.br bj).parentHeight - (r.br bj).offset < 0) := by omega
+      simpa [this] using he
+    obtain ⟨hbb, hii⟩ := hi.uniq bj hbj bi hbi _ i e d he' hd heid
+    subst hbb
+    congr 2
+    omega
+
+/-- `HashHeight` of a held header is its position. -/
+theorem hashHeight_held (r : Repo) (hf : ForestOK r) (hi : IdOK r) (bi : Nat) (hbi : bi ∈ r.branches) (i : Nat) (d : HData)
+    (hd : (r.br bi).headers[i]? = some d) :
+    hashHeight r d.hdr.id = some ((r.br bi).parentHeight + (r.br bi).offset + (i : Int)) := by
+  unfold hashHeight
+  rw [branchesFind_held r hf hi bi hbi i d hd]
+
 end BRV.Repo
